@@ -66,7 +66,17 @@ pub fn gen_merge_case(rng: &mut Rng, tier: Tier) -> MergeCase {
     MergeCase {
         sources,
         attach,
-        mf: gen::gen_merge_kind(rng),
+        mf: {
+            let k = gen::gen_merge_kind(rng);
+            // side stream: one merge in ten uses a merge function that hands back a borrowed
+            // sub-slice of its first input
+            let mut side = rng.clone();
+            if side.chance(1, 10) {
+                crate::env::MergeKind::BorrowedPrefix
+            } else {
+                k
+            }
+        },
         out_mode: rng.below(2) as u8,
         out_knobs,
         env: gen::gen_env(rng, true),
